@@ -1,0 +1,34 @@
+//! Verification hook (C04 shape correspondence; read-only, add-only): the logical shape of one
+//! table's B-tree as plain data. Filled by `BtreeMut::verif_shape` (tree_store/btree.rs) and
+//! exposed as `Table::verif_shape`.
+
+use super::VPage;
+use alloc::vec::Vec;
+
+/// One node of the tree, in pre-order (a branch is followed by its children, left to right)
+#[derive(Clone, Debug, PartialEq, Eq)]
+pub struct VShapeNode {
+    /// 0 for the root
+    pub depth: u32,
+    pub leaf: bool,
+    pub page: VPage,
+    /// `PageAllocator::uncommitted(page)`: allocated by this transaction, mutable in place
+    pub uncommitted: bool,
+    /// `page.memory().len()` = page_size << order
+    pub allocated_len: usize,
+    /// `LeafAccessor::total_length()` / `BranchAccessor::total_length()`
+    pub used_len: usize,
+    /// leaf: the entry keys; branch: the separator keys
+    pub keys: Vec<Vec<u8>>,
+    /// leaf: the value length of every entry; branch: empty
+    pub value_lens: Vec<usize>,
+    /// branch: number of children; leaf: 0
+    pub children: usize,
+}
+
+#[derive(Clone, Debug, PartialEq, Eq)]
+pub struct VShape {
+    /// `BtreeHeader::length` (0 for an empty tree)
+    pub length: u64,
+    pub nodes: Vec<VShapeNode>,
+}
